@@ -53,13 +53,13 @@ CHECKS = {
         level="other", engine="fsym",
         technique="SMT satisfiability of the path guard of every memory event of the symbolically executed statement decides the may-read / may-write sets, which the access types reported by the real VariablesAccessInfo must cover",
         text="VariablesAccessInfo is computed by the real code for every statement of a generated statement family (assignments with nested subscripts and index arrays, structure and nested structure-array members, sections, WHERE, loops with expression bounds, branches, SELECT CASE, DO WHILE, calls with intent(in/out/inout) dummies, PURE subroutines, array-valued actual arguments, intrinsic subroutines, function references) and for every statement of the region family. The statement is executed symbolically from an arbitrary state with callees in the same file executed; z3 decides for each memory event whether its path guard is satisfiable. Every variable (or structure component) with a possible read must be reported with a read access type and every one with a possible write with a write type; in an assignment whose target is also read the reported read must precede the write.",
-        note="Bounds: loops unrolled to K=3/4, extents <= 3/4; intrinsic subroutines follow the standard's intents; module variables touched only inside a callee are not demanded; shape inquiries are not reads. Trusted: fparser2, z3, fsym.",
+        note="Bounds: loops unrolled to K=3/4, extents <= 3/4; intrinsic subroutines follow the standard's intents; module variables touched only inside a callee are not demanded; shape inquiries are not reads. Trusted: fparser2, z3, fsym. Includes sections whose bounds equal the declared bounds.",
         ref="5/C11"),
     "C12": dict(
         level="other", engine="fsym",
         technique="SMT queries over the symbolically executed region's memory-event trace: satisfiability of 'this read sees the incoming value' (upward-exposed read) and 'this write happens' decides the required input/output sets, compared with the real get_in_out_parameters lists",
         text="CallTreeUtils().get_in_out_parameters is called on every consecutive statement range of a generated region family (partial and conditional writes, write-then-read of different elements, calls to routines in the same file, sections, index arrays, EXIT/CYCLE, DO WHILE). The routine is executed symbolically with the event trace on; for every read event of the region z3 decides whether its guard can hold while no earlier write of the region covers the same element (then the variable must be a reported input), and for every write event whether its guard can hold (then it must be a reported output). A missing variable is confirmed against the ProvideVariable calls emitted by the real ExtractTrans for the same statements.",
-        note="Bounds: loops unrolled to K=3/4, extents <= 3/4, symbolic pre-state; routines called from the region are executed. Generic (non-PSyKAl) regions only: the non-local/LFRic kernel path of get_in_out_parameters is outside this check. Trusted: fparser2, z3, fsym.",
+        note="Bounds: loops unrolled to K=3/4, extents <= 3/4, symbolic pre-state; routines called from the region are executed. The non-local path (collect_non_local_symbols=True, as used by LFRicExtractTrans) is exercised on invokes of 2-3 synthesised kernels that read/write the variables of one shared module directly and through its routines; the oracle executes a driver that calls the kernel bodies in invoke order (K cells each). Trusted: fparser2, z3, fsym.",
         ref="5/C12"),
     "C13": dict(
         level="translation_validation", engine="fsym",
@@ -71,13 +71,13 @@ CHECKS = {
         level="model_checking", engine="crosshair",
         technique="CrossHair symbolic execution (z3) of the real SymbolTable methods: inductive step with symbolic selectors for the names in the outer scope, nested scope and other table and for the operation's arguments",
         text="For each symbol-table operation (new_symbol, next_available_name with shadowing/other_table, add, rename_symbol, lookup, merge, remove, find_or_create_tag) and each fixed part of the pre-state, CrossHair executes the real method with integer selectors as solver variables that choose the symbols' names from a pool with case variants and _N-suffixed names (a/A, a_1/A_1, work/Work_1, ...). It must confirm over all paths that afterwards every table is well-formed (normalised names unique, keys consistent, tags pointing into the table), that the operation's contract holds (a generated name clashes with nothing visible nor with the other table, lookup returns the innermost symbol, merge adds each symbol exactly once) and that a raising operation changed nothing. Counterexamples are re-run in CPython.",
-        note="One step from enumerated well-formed pre-states (<= 2 symbols per table, one tagged); histories are covered only through the inductive invariant. Quick: 16 conditions (one round on 16 cores, about 600 paths each); thorough: 56 conditions. 'Not confirmed' counts as inconclusive. This is the weakest claim: CrossHair realises the selectors when they index the name pool, so a confirmation is an exhaustive path enumeration driven by the solver. Trusted: CrossHair, z3.",
+        note="One step from enumerated well-formed pre-states (<= 2 symbols per table, one tagged); histories are covered only through the inductive invariant. Quick: 16 conditions (one round on 16 cores, about 600 paths each); thorough: 56 conditions. 'Not confirmed' counts as inconclusive. This is the weakest claim: CrossHair realises the selectors when they index the name pool, so a confirmation is an exhaustive path enumeration driven by the solver. Trusted: CrossHair, z3. Merges are tried into the outer and into the nested scope (a renamed symbol must avoid the names of the enclosing scope).",
         ref="5/C16"),
     "C17": dict(
         level="other", engine="verdict-oracle",
         technique="SMT oracle on analysis verdicts: each positive verdict of the real SymbolicMaths/distance code is refuted or confirmed by z3 over all integer valuations",
         text="SymbolicMaths.equal/never_equal/expand and DependencyTools._get_dependency_distance are run on generated integer expression pairs; every positive verdict is the hypothesis of a z3 query over all integers with Fortran truncating division/MOD/MIN/MAX and arrays as uninterpreted maps. Witnesses are replayed with an independent integer evaluator.",
-        note="Expressions are enumerated/sampled up to depth 2 (quick) / 3 (thorough); valuations are solver-quantified (unbounded; nonlinear 'unknown' answers are re-asked on [-8,8]). Only soundness of positive verdicts is asserted.",
+        note="Expressions are enumerated/sampled up to depth 2 (quick) / 3 (thorough); valuations are solver-quantified (unbounded; nonlinear 'unknown' answers are re-asked on [-8,8]). Only soundness of positive verdicts is asserted. Expressions include an array component of an element of a rank-2 array of structures (c(i,j)%w(k)).",
         ref="5/C17"),
     "C27": dict(
         level="model_checking", engine="pysx",
@@ -89,7 +89,7 @@ CHECKS = {
         level="model_checking", engine="crosshair",
         technique="CrossHair symbolic execution (z3) of the real ChildrenList/Node methods: inductive step with symbolic index and item selectors per (pre-state, operation)",
         text="For each enumerated well-formed parent pre-state and each public child-list operation, CrossHair executes the real method with the index (range -7..7) and item selectors as solver variables and must confirm over all paths that the local invariant holds afterwards and that a raising operation changed nothing. One inductive step from any valid local state covers edit histories of any length because the invariant is local to a (parent, children) pair. Counterexamples are re-run in CPython.",
-        note="Pre-states: 7 parent kinds quick / 20 thorough, built with the real constructors; 10 candidate item kinds; index -7..7. 'Not confirmed' counts as inconclusive. Trusted: CrossHair, z3.",
+        note="Pre-states: 7 parent kinds quick / 20 thorough, built with the real constructors; 10 candidate item kinds; index -7..7. 'Not confirmed' counts as inconclusive. Trusted: CrossHair, z3. The extend operation is checked as three separate conditions (two fresh items, the same item twice, a second item still attached elsewhere).",
         ref="5/C14"),
     "C18": dict(
         level="model_checking", engine="pysx",
@@ -101,13 +101,13 @@ CHECKS = {
         level="translation_validation", engine="fsym",
         technique="SMT (non-linear real arithmetic) on the symbolically executed TL kernel and PSyAD-generated adjoint: z3 decides <Ax,y> = <x,A*y> for all active x, y and all passive data, per array extent; coefficient-wise fallback after a solver-checked linearity lemma",
         text="Real psyclone.psyad.tl2ad.generate_adjoint_str on a generated family of tangent-linear kernels (every loop header - unit/strided/negative/literal/zero-trip - crossed with every assignment form - increments, overwrites, negations, divisions by passive data, scalar accumulations, active temporaries, offsets - plus straight-line, branch-on-passive-data and multi-loop kernels). The TL routine and the adjoint are executed symbolically over exact reals with the active variables x (TL) and y (adjoint) and all passive coefficients as solver variables; for each extent n = 0..E (or the literal extent) the difference of the two inner products is normalised to a sum of monomials and z3 decides that it is zero for all values; it also decides that passive data is untouched and that the adjoint stays inside the declared bounds. Witnesses are replayed by a generated driver that evaluates both inner products with gfortran (bounds checking on).",
-        note="Bounds: extents n = 0..4 (quick) / 0..5 (thorough) enumerated, literal extent 10; all values symbolic; exact arithmetic (rounding outside the claim). The PSyAD-generated test harness is not validated. Trusted: fparser2, z3, fsym, gfortran for replay.",
+        note="Bounds: extents n = 0..4 (quick) / 0..5 (thorough) enumerated, literal extent 10; all values symbolic; exact arithmetic (rounding outside the claim). The PSyAD-generated test harness is not validated. Trusted: fparser2, z3, fsym, gfortran for replay. Includes array-section statements (mixed spellings of one section, an imported passive coefficient, an assumed-shape view of the kernel for PSyAD).",
         ref="5/C19"),
     "C20": dict(
         level="translation_validation", engine="fsym",
         technique="SMT translation validation of the generated LFRic PSy layer (executed symbolically with an LFRic stub contract) against the user guide's formula executed on the documented DoF range: z3 decides agreement of every documented argument for all field/scalar values and all DoF counts <= K",
         text="The real LFRic generator is run on an algorithm file synthesised for every entry of BUILTIN_MAP under distributed memory on/off x annexed-DoF computation on/off x OpenMP variants, and on multi-built-in invokes over fields of three differently sized function spaces with LFRicLoopFuseTrans applied forwards and backwards. The oracle is read at run time from doc/user_guide/dynamo0p3.rst (signature and array-syntax formula of each built-in); the documented range is all DoFs (no DM), owned DoFs (DM, always for reductions) or owned+annexed (DM with COMPUTE_ANNEXED_DOFS). The generated invoke and the documented statements are executed symbolically over the same symbolic field data, scalars and DoF counts (0 <= owned <= annexed <= undf <= K); z3 decides that every field agrees at every DoF (updated inside the range, untouched outside) and every reduction result agrees. Witnesses are replayed by concrete re-execution and a plain-Python evaluation of the documented formula.",
-        note="Bounds: undf <= 3 (quick) / 4 (thorough) per function space (DoF loops unrolled), exact arithmetic. LFRic infrastructure is a stub contract (vlib/fsym/lfric.py): proxies alias fields, one data array per field, get_sum is the identity (one rank), halo calls do not touch data. setval_random and reprod reductions are outside the claim. Trusted: fparser2, z3, fsym, the stub contract, the doc parser.",
+        note="Bounds: undf <= 3 (quick) / 4 (thorough) per function space (DoF loops unrolled), exact arithmetic. LFRic infrastructure is a stub contract (vlib/fsym/lfric.py): proxies alias fields, one data array per field, get_sum is the identity (one rank), halo calls do not touch data. setval_random and reprod reductions are outside the claim. Trusted: fparser2, z3, fsym, the stub contract, the doc parser. Reproducible OpenMP reductions (thread-local partial sums) are executed from one thread's point of view (thread number and team size symbolic).",
         ref="5/C20"),
     "C21": dict(
         level="translation_validation", engine="fsym",
@@ -143,13 +143,13 @@ CHECKS = {
         level="model_checking", engine="fsym",
         technique="SMT over path-guarded PreStart/PostEnd call events of the symbolically executed instrumented text: z3 decides, for all inputs and all paths within K unrollings, that region depth counters stay in {0,1}, nest LIFO and return to 0",
         text="Real ProfileTrans, ExtractTrans, NanTestTrans and ReadOnlyVerifyTrans (no force) on every consecutive statement range of every schedule (routine body, loop bodies, branches) of a program family containing EXIT, CYCLE, named CYCLE, RETURN, forward GOTO, DO WHILE and branches, plus a two-region history with one re-used transformation object (first region user-named, second default-named) and an enclosing third region. FortranWriter lowers the PSyData nodes; the written text is executed symbolically and every PSyData call becomes an event guarded by its path condition. z3 decides that no input makes a region start while open, end while closed, end out of LIFO order, receive another hook call while closed, or stay open at routine exit. Region-name uniqueness is a static comparison. Witnesses are replayed by compiling the instrumented text against a checking stub PSyData library with gfortran.",
-        note="Bounds: loops unrolled to K=3/4 (trip <= K assumed), regions of <= 3 statements; executions reaching STOP are outside the claim. Control transfers are executed by the interpreter's own semantics, not PSyclone's. Trusted: fparser2, z3, fsym, gfortran for replay.",
+        note="Bounds: loops unrolled to K=3/4 (trip <= K assumed), regions of <= 3 statements; executions reaching STOP are outside the claim. Control transfers are executed by the interpreter's own semantics, not PSyclone's. Trusted: fparser2, z3, fsym, gfortran for replay. Names of PSy-layer regions (PSyDataTrans.get_unique_region_name) are compared on an LFRic invoke that calls one kernel several times, with fresh and re-used transformation objects.",
         ref="5/C28"),
     "C29": dict(
         level="model_checking", engine="pysx",
         technique="symbolic execution of the real Python method (AST -> z3, merged paths) against a most-general file-system environment: every answer of the file system is a fresh solver variable (assume/guarantee), one SMT query per obligation",
         text="CodedKern.rename_and_write is read from /repo at run time and executed by the pysx interpreter. Concurrent PSyclone runs are the environment: each exists/size/content question and each open attempt is answered by a fresh solver variable, constrained only by monotone existence; the open flags are taken from the AST. z3 decides for both naming schemes and all environment behaviours within R naming attempts: every write goes through a descriptor from this run's own successful O_CREAT|O_EXCL open and no existing file is opened for writing; the suffix passed to _rename_psyir is that of the file created; the loop terminates when a name is free; under 'single' nothing is created when the name exists, the run raises iff the content read differs, and it succeeds when the other run's final content is identical. Witnesses are replayed on the real method with os/open wrapped to give the witness answers.",
-        note="Bounds: R = 3 (quick) / 5 (thorough) naming attempts. The other runs are not executed: they are over-approximated by the environment (any interleaving is some sequence of answers). FortranWriter, FortLineLength, Config and _rename_psyir are stubs. Trusted: pysx, z3.",
+        note="Bounds: R = 3 (quick) / 5 (thorough) naming attempts. The other runs are not executed: they are over-approximated by the environment (any interleaving is some sequence of answers). FortranWriter, FortLineLength, Config and _rename_psyir are stubs. Trusted: pysx, z3. Predicates on a file's content other than equality (startswith, ...) are arbitrary booleans implied by equality.",
         ref="5/C29"),
 }
 
